@@ -856,14 +856,24 @@ Pointset_Powerset<PSET>::relation_with_aux(const Cons_or_Congr& c) const {
   for (Sequence_const_iterator si = x.sequence.begin(),
          s_end = x.sequence.end(); si != s_end; ++si) {
     Poly_Con_Relation relation_i = si->pointset().relation_with(c);
-    if (relation_i.implies(Poly_Con_Relation::is_included())) {
-      included_once = true;
+    const bool included_i
+      = relation_i.implies(Poly_Con_Relation::is_included());
+    const bool disjoint_i
+      = relation_i.implies(Poly_Con_Relation::is_disjoint());
+    // A disjunct that is both included in and disjoint from `c' is empty:
+    // it must not count as a witness for `strictly_intersects'.
+    if (included_i) {
+      if (!disjoint_i) {
+        included_once = true;
+      }
     }
     else {
       is_included = false;
     }
-    if (relation_i.implies(Poly_Con_Relation::is_disjoint())) {
-      disjoint_once = true;
+    if (disjoint_i) {
+      if (!included_i) {
+        disjoint_once = true;
+      }
     }
     else {
       is_disjoint = false;
